@@ -931,6 +931,7 @@ def mon_c11(net, obs, opts, mode, transient=False):
         temps = []
         for s in streams:
             if s["table"] in ("circ_pump_mass", "circ_pump_pressure"):
+                temps += [s["tin"], s["tout"]]      # the pump's outlet is the hot end of the loop's temperature range
                 continue
             d = duty(s)
             parts += d
